@@ -28,6 +28,29 @@ CHECKS = {
         'and AbstractPool.compile_in_tx execute the same histories as the extracted model and all replies/seen payloads are compared.',
    note='Trusted: Coq kernel; extraction (cross-checked by vm_compute on a sample); harness. Modelled, not executed: dbview.pyx/execute.pyx/binary.pyx '
         'bookkeeping (transliterated), the per-statement compile loop for SET ALIAS/DDL, PostgreSQL itself (oracle). No axioms.'),
+ 'C04': dict(
+   category='proof', design_ref='DESIGN.md section 4, C04 (+ section 9 change log)',
+   technique='Coq invariant proof over all raw-operation histories of a model of FlatSchema/ChainedSchema indexes; differential correspondence model vs real FlatSchema op by op; referential-integrity / frozen-snapshot monitors on real DDL histories',
+   text='Layer 1 (full proof): for every class table and every finite history of add/add_raw/update_obj/set_obj_field/unset_obj_field/delete/discard/delist '
+        '(rejected operations included) the name, global-name, short-name, type and reverse-reference indexes of the FlatSchema model are exactly what the objects\' own '
+        'data determine, a deleted id is in none of them, a rejected operation changes nothing, ChainedSchema never touches its base; tied to /repo by running the real '
+        'FlatSchema/ChainedSchema on the same histories over all 64 registered schema classes and comparing the full state after every operation, with monitors that recompute every index '
+        'from scratch and deep-compare all earlier schema values with their snapshots. Layer 2 (partial): an abstract guarded create/alter/drop layer is proved reference-safe in Coq; '
+        'the real delta commands are exercised by generated DDL histories through the real parser/DDL pipeline with monitors only (every reference resolves, lookups agree with object data, '
+        'rejected command leaves the schema identical, earlier schema values unchanged).',
+   note='Trusted: Coq kernel; extraction (vm_compute cross-check); harness generators/monitors; vrt substrate (stubs, parser, std schema). Modelled not verified: immutables.Map/frozenset semantics, '
+        'schema_reduce/refs abstraction, shortname function as a table computed from the real function. The real delta.py command layer (~15 kloc) is NOT modelled: mutations there are caught by the monitors, '
+        'not by a broken proof. No axioms.'),
+ 'C19': dict(
+   category='proof', design_ref='DESIGN.md section 4, C19 (+ section 9 change log)',
+   technique='Coq proofs over all operation sequences / all integers about a model of config ops, lookup, JSON and duration/memory codecs with constants regenerated from source by a fail-closed translator; differential correspondence vs real edb.server.config on synthetic, exotic and the real spec',
+   text='15 machine-checked theorems for every spec, operation sequence and payload (valid or not): effective value = most specific defining scope else default; frame properties; a rejected operation '
+        'changes nothing; typedness of stored values and the 128-element bound; RESET; duration ISO-8601 and memory-size text round trips for ALL integers; JSON round trip of scalar and scalar-set '
+        'settings; INSERT / filtered RESET set semantics; plus refutation witnesses for the remaining known findings. Unit constants, parse tables and limits are regenerated from edb/ir/statypes.py '
+        'and config/ops.py on every run. Correspondence: the real Operation.apply / lookup / to_json / from_json / to_edgeql run the same sequences as the extracted model (synthetic specs covering every '
+        'setting kind and the real spec loaded from the std schema, with SET/RESET compiled from CONFIGURE text by the real compiler front end); to_edgeql output is re-parsed by the real parser.',
+   note='Trusted: Coq kernel; extraction; translator harness/translate/c19_units.py; harness; vrt substrate. Tested only (not proved): JSON round trip of object values, to_edgeql. Outside the model: PostgreSQL-style '
+        'duration text, non-ASCII digits, GLOBAL scope. No axioms.'),
 }
 
 NA_DEFAULT = 'check not built yet (round 1 in progress); see DESIGN.md section 6'
